@@ -379,7 +379,7 @@ fn process_engine(rep: &Report, seed: u64, tier: Tier) {
             inputs.extend(field_mutations(&mut rng));
         }
     }
-    inputs.extend(raw_inputs(&mut rng, tier.pick(300, 4000)));
+    inputs.extend(raw_inputs(&mut rng, tier.pick(600, 6000)));
     // bit flips and truncations of a valid archive (sampled in quick, all in thorough)
     {
         let (_s, _d, _b, valid) = base_archive(&mut rng, (3, 4), 1);
@@ -610,9 +610,9 @@ fn library_engine(rep: &Report, seed: u64, tier: Tier) {
     let mut inputs = field_mutations(&mut rng);
     // drop the bombs here (64 MiB allocations are legitimate-ish but slow under the cap)
     inputs.retain(|h| !h.class.starts_with("bomb"));
-    inputs.extend(raw_inputs(&mut rng, tier.pick(4000, 40_000)));
+    inputs.extend(raw_inputs(&mut rng, tier.pick(20_000, 200_000)));
     // random mutations of valid R2 archives at byte level
-    for _ in 0..tier.pick(6000, 60_000) {
+    for _ in 0..tier.pick(30_000, 300_000) {
         let comp = *rng.pick(&[(0u32, 0u32), (3, 4), (2, 3), (1, 2)]);
         let kind = rng.below(3);
         let (_s, _d, _b, valid) = base_archive(&mut rng, comp, kind);
